@@ -66,11 +66,34 @@ def _lib():
     return mp4, BufferedReader
 
 
+class ParseBudgetExceeded(Exception):
+    """the parser made far more reads than the input has bytes: it is not going to terminate"""
+
+
+_guarded: dict = {}
+
+
 def _source(kind: str, data: bytes):
+    """The two kinds of source real callers pass, each with a deterministic read budget (20 reads per input
+    byte + 10000; a normal parse needs at most one read per byte) so that a parser that never terminates becomes
+    a reported violation instead of an exhausted machine."""
     mp4, BufferedReader = _lib()
-    if kind == "br":
-        return BufferedReader(None, data=data)
-    return io.BufferedReader(io.BytesIO(data))
+    if not _guarded:
+        def guard(base):
+            class Guarded(base):
+                def read(self, *a):
+                    self._vt_budget -= 1
+                    if self._vt_budget < 0:
+                        raise ParseBudgetExceeded(f"more than {20 * self._vt_len + 10000} reads on {self._vt_len} bytes of input")
+                    return super().read(*a)
+            Guarded.__name__ = base.__name__
+            return Guarded
+        _guarded["br"] = guard(BufferedReader)
+        _guarded["io"] = guard(io.BufferedReader)
+    src = _guarded["br"](None, data=data) if kind == "br" else _guarded["io"](io.BytesIO(data))
+    src._vt_len = len(data)
+    src._vt_budget = 20 * len(data) + 10000
+    return src
 
 
 def _load(data: bytes, mode: str, lazy: bool, iv_size, src_kind: str = "br"):
@@ -132,6 +155,9 @@ def _exc_box(exc) -> tuple[str, str]:
 
 def _fail_exc(out: Outcome, exc, phase: str, ctx: str):
     box, where = _exc_box(exc)
+    if isinstance(exc, ParseBudgetExceeded):
+        out.fail(f"{box}/parse-does-not-terminate", f"{ctx}: {exc} (last repository frame {where})")
+        return
     out.fail(f"{box}/raises/{_exc_name(exc)}/in-{phase}", f"{ctx}: {exc!r} at {where}")
 
 
